@@ -1,8 +1,10 @@
 import Librfn.Driver.Pure
 import Librfn.Driver.Mlog
+import Librfn.Driver.Console
 
 def main (args : List String) : IO UInt32 :=
   match args with
   | "pure" :: rest => Librfn.Driver.Pure.main rest
   | "mlog" :: rest => Librfn.Driver.Mlog.main rest
+  | "console" :: rest => Librfn.Driver.Console.main rest
   | _ => do IO.eprintln "usage: librfn_model <engine> [args]"; return 2
